@@ -140,9 +140,9 @@ def c19():
     tid = 0
     for gi, kw in enumerate(GRID):
         sample = behs if chk.tier == "thorough" else rng.sample(behs, min(12, len(behs)))
-        for b in sample:
+        for bi, b in enumerate(sample):
             tid += 1
-            sd = 1000 * chk.seed + 10 * gi + 7
+            sd = 0 if bi % 4 == 0 else 1000 * chk.seed + 10 * gi + 7       # seed 0 is a seed like any other
             traces.append(gen_trace(tid, kw, b["calls"], {1: sd, 2: sd}))
         # explicit arguments, as the multi-instance environment passes them
         p = abstract_params(kw)
